@@ -45,7 +45,8 @@ def write(root, ds, *, lidar_channel="LIDAR_TOP", vis_convention="names", time_u
         T["sample"].append({"token": "sample-%d" % k, "timestamp": ts, "prev": "sample-%d" % (k - 1) if k > 1 else "", "next": "sample-%d" % (k + 1) if k < n else "",
                             "scene_token": "scene-0"})
         e = s["ego"]
-        T["ego_pose"].append({"token": "ego-%d" % k, "timestamp": ts, "rotation": quat(e.get("yaw", e.get("q", 0) * math.pi / 2)), "translation": [float(e["x"]), float(e["y"]), 0.0]})
+        rot = list(e["quat"]) if "quat" in e else quat(e.get("yaw", e.get("q", 0) * math.pi / 2))
+        T["ego_pose"].append({"token": "ego-%d" % k, "timestamp": ts, "rotation": rot, "translation": [float(e["x"]), float(e["y"]), float(e.get("z", 0.0))]})
         for kind, cs in (("lidar", "cs-lidar"), ("cam", "cs-cam")):
             T["sample_data"].append({"token": "sd-%s-%d" % (kind, k), "sample_token": "sample-%d" % k, "ego_pose_token": "ego-%d" % k, "calibrated_sensor_token": cs,
                                      "timestamp": ts, "fileformat": "pcd" if kind == "lidar" else "jpg", "is_key_frame": True, "height": 0 if kind == "lidar" else 720,
